@@ -752,6 +752,27 @@ func runExt4Case(prop string, c core.Case, env *core.Env) core.Result {
 		}
 		if full {
 			res.Mark("ENOSPC reached")
+			// what is left is less than the refused file needed: use it up block by block, so that the calls
+			// below meet a volume without a single free block
+			for i := 0; i < 20000; i++ {
+				if !step(fsdrive.Op{Kind: "write", Path: fmt.Sprintf("tail%05d.bin", i), Len: bs, DSeed: uint64(50000 + i)}) {
+					return res
+				}
+				if drv.History[len(drv.History)-1].Err != "" {
+					res.Mark("filled to the last block")
+					break
+				}
+			}
+			// a handle that is refused a growing write goes on being used
+			for _, op := range []fsdrive.Op{
+				{Kind: "open", Path: "fill0002.bin", H: 0, Flag: os.O_RDWR}, {Kind: "hseek", H: 0, Off: int64(1)},
+				{Kind: "hwrite", H: 0, Len: 60 * bs, DSeed: 81}, {Kind: "hwrite", H: 0, Len: 0}, {Kind: "hseek", H: 0, Off: 0},
+				{Kind: "hwrite", H: 0, Len: 1, DSeed: 82}, {Kind: "hclose", H: 0},
+			} {
+				if !step(op) {
+					return res
+				}
+			}
 			// with the volume full, every other kind of call that needs a block or an inode is tried as well:
 			// refused or not, the image must stay consistent
 			for _, op := range []fsdrive.Op{
